@@ -9,8 +9,11 @@ theorem Inv.frame' {c : Cfg} {s s' : State} {X : List Nat} {t : Nat} {th' : Thre
       s'.cache (s'.objs x).ty = some x ∧ (s'.objs x).nrel = (relsOf c (s'.objs x).ty).length)
     (hOwn : ∀ o, o ∉ X → Owns (s.thr t) o → Owns th' o)
     (hOwnX : ∀ x ∈ X, (s'.objs x).stamp ≠ 0 → (s'.objs x).closed = false → Owns th' x)
-    (hrets : ∀ r ∈ s'.rets, r ∈ s.rets ∨ RetOK c s' r) : Inv c s' := by
-  refine Inv.frame (t := t) hI hR hX (fun t' ht => by rw [hthr, upd_ne _ _ _ _ ht]) ?_ hXc ?_ ?_ hrets
+    (hrets : ∀ r ∈ s'.rets, r ∈ s.rets ∨ RetOK c s' r)
+    (hB : OnlySelfRels c → (∀ o, (s.objs o).backs = []) → ∀ o, (s'.objs o).backs = [] := by
+      intro _ hb o; grind [upd, freshObj])
+    (hgets : ∀ g ∈ s'.gets, g ∈ s.gets ∨ GetOK c s' g := by intro g hg; exact Or.inl hg) : Inv c s' := by
+  refine Inv.frame (t := t) hI hR hX (fun t' ht => by rw [hthr, upd_ne _ _ _ _ ht]) ?_ hXc ?_ ?_ hrets hgets hB
   · rw [hthr, upd_same]; exact hT
   · rw [hthr, upd_same]; exact hOwn
   · rw [hthr, upd_same]; exact hOwnX
@@ -19,15 +22,21 @@ theorem Inv.pure_step {c : Cfg} {s s' : State} {t : Nat} {th' : Thread} (hI : In
     (h1 : s'.nobj = s.nobj) (h2 : s'.objs = s.objs) (h3 : s'.cache = s.cache) (h4 : s'.clock = s.clock)
     (hthr : s'.thr = upd s.thr t th') (hT : ThreadOK c s t th')
     (hOwn : ∀ o, Owns (s.thr t) o → Owns th' o)
-    (hrets : ∀ r ∈ s'.rets, r ∈ s.rets ∨ RetOK c s r) : Inv c s' := by
+    (hrets : ∀ r ∈ s'.rets, r ∈ s.rets ∨ RetOK c s r)
+    (hgets : ∀ g ∈ s'.gets, g ∈ s.gets ∨ GetOK c s g := by intro g hg; exact Or.inl hg) : Inv c s' := by
   have hR := HeapRel.pure h1 h2 h3 h4
   refine Inv.frame' hI hR hthr (by simp) ?_ (by simp) (fun o _ => hOwn o) (by simp) ?_
+    (fun _ hb o => by rw [h2]; exact hb o) ?_
   · exact ⟨SuspsOK.frame hR _ (by simp) hT.susp,
-      fun f hf => PcOK.frame hI hR hT.susp (by simp) (hT.cur f hf), hT.idle⟩
+      fun f hf => PcOK.frame hI hR hT.susp (by simp) (hT.cur f hf), hT.idle, hT.noSusp⟩
   · intro r hr
     rcases hrets r hr with h | h
     · exact Or.inl h
     · exact Or.inr (h.frame hR (by simp))
+  · intro g hg
+    rcases hgets g hg with h | h
+    · exact Or.inl h
+    · exact Or.inr (h.frame hR)
 
 theorem HeapRel.of_objs {s s' : State} {X : List Nat} (h1 : s'.nobj = s.nobj) (h4 : s'.clock = s.clock)
     (h3 : s'.cache = s.cache)
@@ -48,8 +57,9 @@ theorem HeapRel.of_objs {s s' : State} {X : List Nat} (h1 : s'.nobj = s.nobj) (h
   · intro ty o h; rw [h3] at h; exact Or.inl h
 
 theorem ThreadOK.mk_some {c : Cfg} {s : State} {t : Nat} {todo : List Nat} {f : Frame} {l : List Susp}
-    (hS : SuspsOK c s t l) (hP : PcOK c s t l f.ty f.obj f.pc) : ThreadOK c s t ⟨todo, some f, l⟩ :=
-  ⟨hS, by intro f' hf; cases hf; exact hP, by intro h; cases h⟩
+    (hN : OnlySelfRels c → l = []) (hS : SuspsOK c s t l) (hP : PcOK c s t l f.ty f.obj f.pc) :
+    ThreadOK c s t ⟨todo, some f, l⟩ :=
+  ⟨hS, by intro f' hf; cases hf; exact hP, (by intro h; cases h), hN⟩
 
 theorem Owns.cur_step {th : Thread} {todo : List Nat} {f f' : Frame} {o : Nat} (hc : th.cur = some f)
     (hpc : ownerPc f.pc = true → f'.obj = f.obj ∧ ownerPc f'.pc = true) :
@@ -93,7 +103,7 @@ theorem inv_step {c : Cfg} {s s' : State} {t : Nat} (hI : Inv c s) (h : step c s
     · simp [step, hcur, htodo] at h
       subst h
       have hl : (s.thr t).susp = [] := hT.idle hcur
-      refine hI.pure_step (t := t) rfl rfl rfl rfl rfl (ThreadOK.mk_some hT.susp ?_) ?_ (fun r hr => Or.inl hr)
+      refine hI.pure_step (t := t) rfl rfl rfl rfl rfl (ThreadOK.mk_some hT.noSusp hT.susp ?_) ?_ (fun r hr => Or.inl hr)
       · intro o _; rw [hl]; intro p hp; cases hp
       · rintro o (⟨f0, hf0, _⟩ | ⟨p0, hp0, _⟩)
         · rw [hcur] at hf0; cases hf0
@@ -106,13 +116,13 @@ theorem inv_step {c : Cfg} {s s' : State} {t : Nat} (hI : Inv c s) (h : step c s
       · simp [step, hcur, hc, setPc] at h
         subst h
         exact hI.pure_step (t := t) rfl rfl rfl rfl rfl
-          (ThreadOK.mk_some hT.susp (show PcOK c s t _ ty obj .tableName from P))
+          (ThreadOK.mk_some hT.noSusp hT.susp (show PcOK c s t _ ty obj .tableName from P))
           (fun o => Owns.cur_step hcur (by simp [ownerPc])) (fun r hr => Or.inl hr)
       · simp [step, hcur, hc, setPc] at h
         subst h
         have hco := hI.cache_ok ty o hc
         exact hI.pure_step (t := t) rfl rfl rfl rfl rfl
-          (ThreadOK.mk_some hT.susp (show PcOK c s t _ ty obj (.wait o) from ⟨hco.1, hco.2.1, hco.2.2, P o hc⟩))
+          (ThreadOK.mk_some hT.noSusp hT.susp (show PcOK c s t _ ty obj (.wait o) from ⟨hco.1, hco.2.1, hco.2.2, P o hc⟩))
           (fun o => Owns.cur_step hcur (by simp [ownerPc])) (fun r hr => Or.inl hr)
     | load2 =>
       have P : PreMono s (s.thr t).susp ty ∧ Pre s t (s.thr t).susp.length ty obj := hP
@@ -120,13 +130,13 @@ theorem inv_step {c : Cfg} {s s' : State} {t : Nat} (hI : Inv c s) (h : step c s
       · simp [step, hcur, hc, setPc] at h
         subst h
         exact hI.pure_step (t := t) rfl rfl rfl rfl rfl
-          (ThreadOK.mk_some hT.susp (show PcOK c s t _ ty obj .los from P))
+          (ThreadOK.mk_some hT.noSusp hT.susp (show PcOK c s t _ ty obj .los from P))
           (fun o => Owns.cur_step hcur (by simp [ownerPc])) (fun r hr => Or.inl hr)
       · simp [step, hcur, hc, setPc] at h
         subst h
         have hco := hI.cache_ok ty o hc
         exact hI.pure_step (t := t) rfl rfl rfl rfl rfl
-          (ThreadOK.mk_some hT.susp (show PcOK c s t _ ty obj (.wait o) from ⟨hco.1, hco.2.1, hco.2.2, P.1 o hc⟩))
+          (ThreadOK.mk_some hT.noSusp hT.susp (show PcOK c s t _ ty obj (.wait o) from ⟨hco.1, hco.2.1, hco.2.2, P.1 o hc⟩))
           (fun o => Owns.cur_step hcur (by simp [ownerPc])) (fun r hr => Or.inl hr)
     | tableName =>
       have P : PreMono s (s.thr t).susp ty := hP
@@ -136,7 +146,7 @@ theorem inv_step {c : Cfg} {s s' : State} {t : Nat} (hI : Inv c s) (h : step c s
         refine ⟨?_, ?_, ?_, ?_, ?_, ?_, ?_, ?_, ?_, ?_⟩ <;> grind [upd, freshObj]
       subst h
       refine Inv.frame' (t := t) hI hR rfl (by simp)
-        (ThreadOK.mk_some (SuspsOK.frame hR _ (by simp) hT.susp) ?_) (by simp)
+        (ThreadOK.mk_some hT.noSusp (SuspsOK.frame hR _ (by simp) hT.susp) ?_) (by simp)
         (fun o _ => Owns.cur_step hcur (by simp [ownerPc])) (by simp) (fun r hr => Or.inl hr)
       refine ⟨PreMono.frame hI hR hT.susp P, ⟨⟨?_, ?_, ?_, ?_, ?_⟩, ?_, ?_, ?_⟩⟩ <;> simp [freshObj]
     | los =>
@@ -150,7 +160,7 @@ theorem inv_step {c : Cfg} {s s' : State} {t : Nat} (hI : Inv c s) (h : step c s
           refine ⟨?_, ?_, ?_, ?_, ?_, ?_, ?_, ?_, ?_, ?_⟩ <;> grind [upd]
         subst h
         refine Inv.frame' (t := t) hI hR rfl ?hX
-          (ThreadOK.mk_some (SuspsOK.frame hR _ ?dep hT.susp) ?pc) ?hXc
+          (ThreadOK.mk_some hT.noSusp (SuspsOK.frame hR _ ?dep hT.susp) ?pc) ?hXc
           (fun o _ => Owns.cur_step hcur (by simp [ownerPc])) ?hOwnX (fun r hr => Or.inl hr)
         case hX => intro x hx; simp at hx; subst hx; exact ⟨hlt, hopn, hoT⟩
         case dep => intro x hx _ _; simp at hx; subst hx; rw [hoD]; exact Nat.le_refl _
@@ -161,7 +171,7 @@ theorem inv_step {c : Cfg} {s s' : State} {t : Nat} (hI : Inv c s) (h : step c s
         subst h
         have hco := hI.cache_ok ty o hc
         exact hI.pure_step (t := t) rfl rfl rfl rfl rfl
-          (ThreadOK.mk_some hT.susp (show PcOK c s t _ ty obj (.wait o) from ⟨hco.1, hco.2.1, hco.2.2, P.1 o hc⟩))
+          (ThreadOK.mk_some hT.noSusp hT.susp (show PcOK c s t _ ty obj (.wait o) from ⟨hco.1, hco.2.1, hco.2.2, P.1 o hc⟩))
           (fun o => Owns.cur_step hcur (by simp [ownerPc])) (fun r hr => Or.inl hr)
     | rel k =>
       have P : OwnK s t (s.thr t).susp.length ty obj k ∧ k ≤ (relsOf c ty).length := hP
@@ -172,7 +182,7 @@ theorem inv_step {c : Cfg} {s s' : State} {t : Nat} (hI : Inv c s) (h : step c s
           have := List.getElem?_eq_none_iff.1 hr
           omega
         exact hI.pure_step (t := t) rfl rfl rfl rfl rfl
-          (ThreadOK.mk_some hT.susp (show PcOK c s t _ ty obj .fin1 from
+          (ThreadOK.mk_some hT.noSusp hT.susp (show PcOK c s t _ ty obj .fin1 from
             ⟨P.1.own, P.1.stamped, P.1.cached, Or.inr (by rw [P.1.nrel, hk])⟩))
           (fun o => Owns.cur_step hcur (fun _ => ⟨rfl, rfl⟩)) (fun r hr => Or.inl hr)
       · have hk : k < (relsOf c ty).length := (List.getElem?_eq_some_iff.1 hr).1
@@ -180,21 +190,36 @@ theorem inv_step {c : Cfg} {s s' : State} {t : Nat} (hI : Inv c s) (h : step c s
         · simp [step, hcur, hr, hc] at h
           subst h
           exact hI.pure_step (t := t) rfl rfl rfl rfl rfl
-            (ThreadOK.mk_some (l := _ :: _) ⟨⟨P.1, hk⟩, hT.susp⟩
+            (ThreadOK.mk_some (l := _ :: _)
+              (fun hs => by
+                have := hs ty r (List.mem_of_getElem? hr)
+                rw [this, P.1.cached] at hc; cases hc)
+              ⟨⟨P.1, hk⟩, hT.susp⟩
               (show PcOK c s t _ r.target 0 .load1 from fun o ho => by rw [hc] at ho; cases ho))
             (fun o => Owns.push hcur) (fun r hr => Or.inl hr)
         · simp [step, hcur, hr, hc] at h
           subst h
-          exact hI.pure_step (t := t) rfl rfl rfl rfl rfl
-            (ThreadOK.mk_some hT.susp (show PcOK c s t _ ty obj (.relSet k fs) from ⟨P.1, hk⟩))
-            (fun o => Owns.cur_step hcur (fun _ => ⟨rfl, rfl⟩)) (fun r hr => Or.inl hr)
+          have hfs : OnlySelfRels c → fs = obj := fun hs => by
+            have := hs ty r (List.mem_of_getElem? hr)
+            rw [this, P.1.cached] at hc
+            exact (Option.some.inj hc).symm
+          refine hI.pure_step (t := t) rfl rfl rfl rfl rfl
+            (ThreadOK.mk_some hT.noSusp hT.susp (show PcOK c s t _ ty obj (.relSet k fs) from ⟨P.1, hk, hfs⟩))
+            (fun o => Owns.cur_step hcur (fun _ => ⟨rfl, rfl⟩)) (fun r hr => Or.inl hr) ?_
+          intro g hg
+          simp at hg
+          rcases hg with rfl | hg
+          · have hco := hI.cache_ok _ _ hc
+            exact Or.inr ⟨hco.1, hco.2.1, ⟨r, hr, hco.2.2⟩, fun hs => by rw [hfs hs]; exact P.1.own.ownT⟩
+          · exact Or.inl hg
     | relSet k fs =>
-      have P : OwnK s t (s.thr t).susp.length ty obj k ∧ k < (relsOf c ty).length := hP
+      have P : OwnK s t (s.thr t).susp.length ty obj k ∧ k < (relsOf c ty).length ∧
+        (OnlySelfRels c → fs = obj) := hP
       rcases hr : (relsOf c ty)[k]? with _ | r
       · exfalso
         have := List.getElem?_eq_none_iff.1 hr
         omega
-      · obtain ⟨⟨⟨hlt, hoT, hoD, hty, hopn⟩, hst, hca, hne, hnr⟩, hk⟩ := P
+      · obtain ⟨⟨⟨hlt, hoT, hoD, hty, hopn⟩, hst, hca, hne, hnr⟩, hk, hfs⟩ := P
         by_cases hbad : r.bad = true
         · simp [step, hcur, hr, hbad] at h
           have hR : HeapRel s s' [obj] := by
@@ -202,7 +227,7 @@ theorem inv_step {c : Cfg} {s s' : State} {t : Nat} (hI : Inv c s) (h : step c s
             refine ⟨?_, ?_, ?_, ?_, ?_, ?_, ?_, ?_, ?_, ?_⟩ <;> grind [upd]
           subst h
           refine Inv.frame' (t := t) hI hR rfl ?hX
-            (ThreadOK.mk_some (SuspsOK.frame hR _ ?dep hT.susp) ?pc) ?hXc
+            (ThreadOK.mk_some hT.noSusp (SuspsOK.frame hR _ ?dep hT.susp) ?pc) ?hXc
             (fun o _ => Owns.cur_step hcur (fun _ => ⟨rfl, rfl⟩)) ?hOwnX (fun r hr => Or.inl hr)
           case hX => intro x hx; simp at hx; subst hx; exact ⟨hlt, hopn, hoT⟩
           case dep => intro x hx _ _; simp at hx; subst hx; rw [hoD]; exact Nat.le_refl _
@@ -215,8 +240,9 @@ theorem inv_step {c : Cfg} {s s' : State} {t : Nat} (hI : Inv c s) (h : step c s
             refine ⟨?_, ?_, ?_, ?_, ?_, ?_, ?_, ?_, ?_, ?_⟩ <;> grind [upd]
           subst h
           refine Inv.frame' (t := t) hI hR rfl ?hX
-            (ThreadOK.mk_some (SuspsOK.frame hR _ ?dep hT.susp) ?pc) ?hXc
-            (fun o _ => Owns.cur_step hcur (fun _ => ⟨rfl, rfl⟩)) ?hOwnX (fun r hr => Or.inl hr)
+            (ThreadOK.mk_some hT.noSusp (SuspsOK.frame hR _ ?dep hT.susp) ?pc) ?hXc
+            (fun o _ => Owns.cur_step hcur (fun _ => ⟨rfl, rfl⟩)) ?hOwnX (fun r hr => Or.inl hr) ?hB
+          case hB => intro hs hb o; have := hfs hs; subst this; grind [upd]
           case hX => intro x hx; simp at hx; subst hx; exact ⟨hlt, hopn, hoT⟩
           case dep => intro x hx _ _; simp at hx; subst hx; rw [hoD]; exact Nat.le_refl _
           case pc => refine ⟨⟨⟨?_, ?_, ?_, ?_, ?_⟩, ?_, ?_, ?_, ?_⟩, hk⟩ <;> grind [upd]
@@ -233,7 +259,7 @@ theorem inv_step {c : Cfg} {s s' : State} {t : Nat} (hI : Inv c s) (h : step c s
           refine ⟨?_, ?_, ?_, ?_, ?_, ?_, ?_, ?_, ?_, ?_⟩ <;> grind [upd]
         subst h
         refine Inv.frame' (t := t) hI hR rfl ?hX
-          (ThreadOK.mk_some (SuspsOK.frame hR _ ?dep hT.susp) ?pc) ?hXc
+          (ThreadOK.mk_some hT.noSusp (SuspsOK.frame hR _ ?dep hT.susp) ?pc) ?hXc
           (fun o _ => Owns.cur_step hcur (fun _ => ⟨rfl, rfl⟩)) ?hOwnX (fun r hr => Or.inl hr)
         case hX => intro x hx; simp at hx; subst hx; exact ⟨hlt, hopn, hoT⟩
         case dep => intro x hx _ _; simp at hx; subst hx; rw [hoD]; exact Nat.le_refl _
@@ -243,7 +269,7 @@ theorem inv_step {c : Cfg} {s s' : State} {t : Nat} (hI : Inv c s) (h : step c s
       · simp [step, hcur, he, setPc] at h
         subst h
         exact hI.pure_step (t := t) rfl rfl rfl rfl rfl
-          (ThreadOK.mk_some hT.susp (show PcOK c s t _ ty obj .fin2 from
+          (ThreadOK.mk_some hT.noSusp hT.susp (show PcOK c s t _ ty obj .fin2 from
             ⟨P.1, P.2.1, Or.inr ⟨P.2.2.1, P.2.2.2.resolve_left he⟩⟩))
           (fun o => Owns.cur_step hcur (fun _ => ⟨rfl, rfl⟩)) (fun r hr => Or.inl hr)
     | wait o =>
@@ -261,7 +287,7 @@ theorem inv_step {c : Cfg} {s s' : State} {t : Nat} (hI : Inv c s) (h : step c s
       · simp [doReturn, hl] at h
         subst h
         refine hI.pure_step (t := t) rfl rfl rfl rfl rfl
-          ⟨trivial, (by intro f hf; cases hf), fun _ => rfl⟩
+          ⟨trivial, (by intro f hf; cases hf), fun _ => rfl, fun _ => rfl⟩
           (fun o => Owns.top hcur hl (by simp [ownerPc])) ?_
         intro r hr
         simp at hr
@@ -270,6 +296,8 @@ theorem inv_step {c : Cfg} {s s' : State} {t : Nat} (hI : Inv c s) (h : step c s
         · exact Or.inl hr
       · have hS : SuspsOK c s t (p :: rest) := hl ▸ hT.susp
         obtain ⟨⟨hk, hlen⟩, hrest⟩ := hS
+        have hNone : ¬ OnlySelfRels c := fun hs => by have := hT.noSusp hs; rw [hl] at this; cases this
+        have hNpop : OnlySelfRels c → rest = [] := fun hs => absurd hs hNone
         by_cases he : (s.objs o).err = true
         · simp [doReturn, hl, he] at h
           obtain ⟨⟨hlt, hoT, hoD, hty, hopn⟩, hst, hca, hne, hnr⟩ := hk
@@ -278,7 +306,7 @@ theorem inv_step {c : Cfg} {s s' : State} {t : Nat} (hI : Inv c s) (h : step c s
             refine ⟨?_, ?_, ?_, ?_, ?_, ?_, ?_, ?_, ?_, ?_⟩ <;> grind [upd]
           subst h
           refine Inv.frame' (t := t) hI hR rfl ?hX
-            (ThreadOK.mk_some (SuspsOK.frame hR _ ?dep hrest) ?pc) ?hXc
+            (ThreadOK.mk_some hNpop (SuspsOK.frame hR _ ?dep hrest) ?pc) ?hXc
             (fun o _ => Owns.pop hcur hl ⟨rfl, rfl⟩ (by simp [ownerPc])) ?hOwnX ?hrets
           case hX => intro x hx; simp at hx; subst hx; exact ⟨hlt, hopn, hoT⟩
           case dep => intro x hx _ _; simp at hx; subst hx; rw [hoD]; exact Nat.le_refl _
@@ -295,7 +323,7 @@ theorem inv_step {c : Cfg} {s s' : State} {t : Nat} (hI : Inv c s) (h : step c s
         · simp [doReturn, hl, he] at h
           subst h
           refine hI.pure_step (t := t) rfl rfl rfl rfl rfl
-            (ThreadOK.mk_some hrest (show PcOK c s t _ p.ty p.obj (.relSet p.k o) from ⟨hk, hlen⟩))
+            (ThreadOK.mk_some hNpop hrest (show PcOK c s t _ p.ty p.obj (.relSet p.k o) from ⟨hk, hlen, fun hs => absurd hs hNone⟩))
             (fun o => Owns.pop hcur hl ⟨rfl, rfl⟩ (by simp [ownerPc])) ?_
           intro r hr
           simp at hr
@@ -316,7 +344,7 @@ theorem inv_step {c : Cfg} {s s' : State} {t : Nat} (hI : Inv c s) (h : step c s
           refine ⟨?_, ?_, ?_, ?_, ?_, ?_, ?_, ?_, ?_, ?_⟩ <;> grind [upd]
         subst h
         refine Inv.frame' (t := t) hI hR rfl ?hX
-          ⟨trivial, (by intro f hf; cases hf), fun _ => rfl⟩ ?hXc
+          ⟨trivial, (by intro f hf; cases hf), fun _ => rfl, fun _ => rfl⟩ ?hXc
           (fun o hx => Owns.top hcur hl (fun _ => by simpa using hx)) ?hOwnX ?hrets
         case hX => intro x hx; simp at hx; subst hx; exact ⟨hlt, hopn, hoT⟩
         case hXc => intro x hx h1 h2 h3; simp at hx; subst hx; grind [upd]
@@ -329,6 +357,8 @@ theorem inv_step {c : Cfg} {s s' : State} {t : Nat} (hI : Inv c s) (h : step c s
           · exact Or.inl hr
       · have hS : SuspsOK c s t (p :: rest) := hl ▸ hT.susp
         obtain ⟨⟨hk, hlen⟩, hrest⟩ := hS
+        have hNone : ¬ OnlySelfRels c := fun hs => by have := hT.noSusp hs; rw [hl] at this; cases this
+        have hNpop : OnlySelfRels c → rest = [] := fun hs => absurd hs hNone
         have hne : p.obj ≠ obj := by
           intro h0
           have := hk.own.ownD
@@ -342,7 +372,7 @@ theorem inv_step {c : Cfg} {s s' : State} {t : Nat} (hI : Inv c s) (h : step c s
             refine ⟨?_, ?_, ?_, ?_, ?_, ?_, ?_, ?_, ?_, ?_⟩ <;> grind [upd]
           subst h
           refine Inv.frame' (t := t) hI hR rfl ?hX
-            (ThreadOK.mk_some (SuspsOK.frame hR _ ?dep hrest) ?pc) ?hXc
+            (ThreadOK.mk_some hNpop (SuspsOK.frame hR _ ?dep hrest) ?pc) ?hXc
             (fun o hx => Owns.pop hcur hl ⟨rfl, rfl⟩ (fun _ => by simp at hx; exact hx.1)) ?hOwnX ?hrets
           case hX =>
             intro x hx; simp at hx
@@ -376,11 +406,11 @@ theorem inv_step {c : Cfg} {s s' : State} {t : Nat} (hI : Inv c s) (h : step c s
             refine ⟨?_, ?_, ?_, ?_, ?_, ?_, ?_, ?_, ?_, ?_⟩ <;> grind [upd]
           subst h
           refine Inv.frame' (t := t) hI hR rfl ?hX
-            (ThreadOK.mk_some (SuspsOK.frame hR _ ?dep hrest) ?pc) ?hXc
+            (ThreadOK.mk_some hNpop (SuspsOK.frame hR _ ?dep hrest) ?pc) ?hXc
             (fun o hx => Owns.pop hcur hl ⟨rfl, rfl⟩ (fun _ => by simpa using hx)) ?hOwnX ?hrets
           case hX => intro x hx; simp at hx; subst hx; exact ⟨hlt, hopn, hoT⟩
           case dep => intro x hx _ _; simp at hx; subst hx; rw [hoD, hl]; simp
-          case pc => exact ⟨hk.frame hR (by simpa using hne), hlen⟩
+          case pc => exact ⟨hk.frame hR (by simpa using hne), hlen, fun hs => absurd hs hNone⟩
           case hXc => intro x hx h1 h2 h3; simp at hx; subst hx; grind [upd]
           case hOwnX => intro x hx _ h2; exfalso; simp at hx; subst hx; grind [upd]
           case hrets =>
